@@ -495,6 +495,8 @@ def run(prop, tier, seed):
     t_start = time.time()
     bit = PROPS[prop]
     ev = vlib.Evidence(prop, tier, seed, "proof")
+    import shutil
+    shutil.rmtree(os.path.join(vlib.OUT, "replay", prop), ignore_errors=True)
     problems = []          # reasons the proof/tie is broken (-> search)
     # 1. translator + proofs
     ok, tprobs = vlib.translate()
@@ -508,9 +510,13 @@ def run(prop, tier, seed):
             problems.append("proof: files failing to compile: " + ", ".join(failed))
     # 2. builds
     okx, xlog = vlib.coq_build(["T/Extract.vo"])
+    model_ok = True
     if not okx:
-        problems.append("model: T/Extract.vo does not build (model cannot be evaluated): " + ", ".join(vlib.coq_failed_files(xlog)))
-        driver = None
+        problems.append("model: T/Extract.vo does not build against the regenerated coq/Gen (model cannot be evaluated): " + ", ".join(vlib.coq_failed_files(xlog)))
+        # the monitors are specification-level: keep searching the real crate with the last driver that built
+        last = os.path.join(vlib.CACHE, "bin", "t_driver")
+        driver = last if os.path.exists(last) else None
+        model_ok = False
     else:
         driver = vlib.ocaml_driver("t_driver", "t_model.ml", "t_driver.ml")
     write_cargo()
@@ -544,7 +550,7 @@ def run(prop, tier, seed):
             rc_, vout, verr = run_bin(driver, ["monitor"], monitor_input(cases, real))
             if rc_ != 0:
                 raise RuntimeError("monitor driver failed: " + verr[-2000:])
-            evaluate(cases, real, model, parse_verdicts(vout), o, tag + "/" + bname)
+            evaluate(cases, real, model if model_ok else real, parse_verdicts(vout), o, tag + "/" + bname)
             for name, ops in cases:
                 all_real[tag + "/" + bname + ":" + name] = real.get(name, [])
         for name, ops in cases:
